@@ -1231,3 +1231,75 @@ def same_shape(ex, res, arg):
 
 
 NS["wid"] = NS["well"]  # alias usable where the code under verification has a local called `well`
+
+
+# ----------------------------------------------------------------------------- column partitioning (C18)
+
+
+def _groups(ex, result):
+    out = []
+    for g in result.concrete_items():
+        parts = g.concrete_items()
+        if len(parts) != 3:
+            raise Unsupported("group is not a (sources, destinations, volumes) triple")
+        out.append([p.concrete_items() for p in parts])
+    return out
+
+
+def _eqz(ex, a, b):
+    return zbool(unwrap_bool(ops.equals(ex, a, b)))
+
+
+@spec
+def groups_keep_triples(ex, result, sources, destinations, volumes):
+    """the groups together contain exactly the input triples (as a multiset; the three lists of a group stay aligned)"""
+    gs = _groups(ex, result)
+    out = []
+    for s, d, v in gs:
+        if not (len(s) == len(d) == len(v)):
+            return False
+        out.extend(zip(s, d, v))
+    ins = list(zip(sources.concrete_items(), destinations.concrete_items(), volumes.concrete_items()))
+    if len(out) != len(ins):
+        return False
+    conj = []
+    for t in ins:
+        cnt_in = sum(z3.If(z3.And(_eqz(ex, t[0], u[0]), _eqz(ex, t[1], u[1]), _eqz(ex, t[2], u[2])), 1, 0) for u in ins)
+        cnt_out = sum(z3.If(z3.And(_eqz(ex, t[0], u[0]), _eqz(ex, t[1], u[1]), _eqz(ex, t[2], u[2])), 1, 0) for u in out)
+        conj.append(cnt_in == cnt_out)
+    return mk_bool(z3.And(*conj)) if conj else True
+
+
+def _side(pb):
+    return 1 if pb == "destination" else 0
+
+
+@spec
+def groups_single_column(ex, result, partition_by):
+    k = _side(partition_by)
+    conj = []
+    for g in _groups(ex, result):
+        ws = [ops.to_abstract(x) for x in g[k]]
+        conj += [term(a.c, "int") == term(ws[0].c, "int") for a in ws[1:]]
+    return mk_bool(z3.And(*conj)) if conj else True
+
+
+@spec
+def groups_columns_ascending(ex, result, partition_by):
+    k = _side(partition_by)
+    gs = _groups(ex, result)
+    firsts = [ops.to_abstract(g[k][0]) for g in gs if g[k]]
+    if len(firsts) != len(gs):
+        return False  # an empty group
+    conj = [term(a.c, "int") < term(b.c, "int") for a, b in zip(firsts, firsts[1:])]
+    return mk_bool(z3.And(*conj)) if conj else True
+
+
+@spec
+def groups_rows_ascending(ex, result, partition_by):
+    k = _side(partition_by)
+    conj = []
+    for g in _groups(ex, result):
+        ws = [ops.to_abstract(x) for x in g[k]]
+        conj += [term(a.r, "int") <= term(b.r, "int") for a, b in zip(ws, ws[1:])]
+    return mk_bool(z3.And(*conj)) if conj else True
